@@ -1,3 +1,823 @@
-//! C16 (stub: no cases yet)
+//! C16 — eq_* / cmp_* functions and const_eq!/const_cmp!/const_eq_for!/const_cmp_for!/
+//! assertc_eq!/assertc_ne! vs `==` / `Ord::cmp`.
+//!
+//! One line per PAIR of values; the line carries every function and macro form that applies to
+//! that type as `k=v` fields.  Orderings print as L/E/G, booleans as T/F; a field covering the
+//! four Option combinations (Some l,Some r) (Some l,None) (None,Some r) (None,None) prints four
+//! letters.  assertc_* fields print `ok` or `PANIC`.
 use crate::common::*;
-pub fn run(_cfg: &Cfg, _out: &mut Out) {}
+use konst::nonzero::cmp::*;
+use konst::other::cmp::*;
+use konst::primitive::cmp::*;
+use konst::range::cmp::*;
+use konst::slice::cmp::*;
+use konst::slice::{cmp_bytes, cmp_option_bytes, eq_bytes, eq_option_bytes};
+use konst::{assertc_eq, assertc_ne, const_cmp, const_cmp_for, const_eq, const_eq_for};
+use konst::{cmp_option_str, cmp_str, eq_option_str, eq_str};
+use std::cmp::Ordering;
+use std::num::*;
+
+fn oc(o: Ordering) -> char {
+    match o {
+        Ordering::Less => 'L',
+        Ordering::Equal => 'E',
+        Ordering::Greater => 'G',
+    }
+}
+fn bc(b: bool) -> char {
+    if b { 'T' } else { 'F' }
+}
+fn s1(c: char) -> String {
+    c.to_string()
+}
+
+// ---------------------------------------------------------------- primitive element types
+
+pub trait Prim: Copy + Ord + std::fmt::Debug + std::panic::RefUnwindSafe + 'static {
+    fn z(&self) -> String;
+    /// three values: below / middle / above
+    fn a3() -> Vec<Self>;
+    /// five values incl. MIN, -1, 0, 1, MAX
+    fn a5() -> Vec<Self>;
+    /// boundary values of the type
+    fn bounds() -> Vec<Self>;
+}
+
+const CANDS: &[i128] = &[
+    0, 1, 2, 3, 126, 127, 128, 129, 254, 255, 256, 257, 32767, 32768, 65535, 65536,
+    (1 << 31) - 1, 1 << 31, (1 << 32) - 1, 1 << 32, (1 << 63) - 1, 1 << 63, (1 << 64) - 1, 1 << 64,
+    i128::MAX,
+];
+
+#[allow(irrefutable_let_patterns)]
+macro_rules! impl_prim_int {
+    ($($t:ty),*) => {$(
+        impl Prim for $t {
+            fn z(&self) -> String { self.to_string() }
+            fn a3() -> Vec<Self> {
+                if <$t>::MIN != 0 { vec![(0 as $t).wrapping_sub(1), 0, 1] } else { vec![0, 1, <$t>::MAX] }
+            }
+            fn a5() -> Vec<Self> {
+                if <$t>::MIN != 0 { vec![<$t>::MIN, (0 as $t).wrapping_sub(1), 0, 1, <$t>::MAX] }
+                else { vec![0, 1, 2, <$t>::MAX - 1, <$t>::MAX] }
+            }
+            fn bounds() -> Vec<Self> {
+                let mut v: Vec<$t> = vec![<$t>::MIN, <$t>::MIN + 1, <$t>::MAX - 1, <$t>::MAX, <$t>::MAX / 2, <$t>::MAX / 2 + 1];
+                for c in CANDS {
+                    if let Ok(x) = <$t>::try_from(*c) { v.push(x); }
+                    if let Ok(x) = <$t>::try_from(-*c) { v.push(x); }
+                    if let Ok(x) = <$t>::try_from(-*c - 1) { v.push(x); }
+                }
+                v.sort();
+                v.dedup();
+                v
+            }
+        }
+    )*};
+}
+impl_prim_int!(u8, u16, u32, u64, u128, usize, i8, i16, i32, i64, i128, isize);
+
+impl Prim for bool {
+    fn z(&self) -> String { (*self as u8).to_string() }
+    fn a3() -> Vec<Self> { vec![false, true] }
+    fn a5() -> Vec<Self> { vec![false, true] }
+    fn bounds() -> Vec<Self> { vec![false, true] }
+}
+impl Prim for char {
+    fn z(&self) -> String { (*self as u32).to_string() }
+    fn a3() -> Vec<Self> { vec!['a', 'b', '\u{10FFFF}'] }
+    fn a5() -> Vec<Self> { vec!['\0', 'a', '\u{D7FF}', '\u{E000}', '\u{10FFFF}'] }
+    fn bounds() -> Vec<Self> {
+        vec!['\0', '\u{1}', 'a', 'b', '\u{7F}', '\u{80}', '\u{FF}', '\u{100}', '\u{7FF}', '\u{800}', '\u{D7FF}', '\u{E000}',
+             '\u{FFFF}', '\u{10000}', '\u{10FFFE}', '\u{10FFFF}']
+    }
+}
+
+/// non-triviality class of a pair of sequences
+fn seq_tag<T: Ord>(l: &[T], r: &[T]) -> &'static str {
+    if l.is_empty() && r.is_empty() {
+        return "-";
+    }
+    if l == r {
+        return "eq";
+    }
+    let n = l.len().min(r.len());
+    match (0..n).find(|&i| l[i] != r[i]) {
+        None => "prefix",
+        Some(i) => {
+            let by_elem = l[i].cmp(&r[i]);
+            let by_len = l.len().cmp(&r.len());
+            if by_len != Ordering::Equal && by_len != by_elem {
+                if i == 0 { "len-against-first" } else { "len-against-elem" }
+            } else if i == 0 {
+                "differ-first"
+            } else {
+                "differ-later"
+            }
+        }
+    }
+}
+
+/// the four Option combinations of a pair
+macro_rules! four {
+    ($f:expr, $l:expr, $r:expr, $sh:expr) => {{
+        let mut s = String::with_capacity(4);
+        s.push($sh($f(Some($l), Some($r))));
+        s.push($sh($f(Some($l), None)));
+        s.push($sh($f(None, Some($r))));
+        s.push($sh($f(None, None)));
+        s
+    }};
+}
+
+/// `ok` / `PANIC` for an assertion macro
+macro_rules! asserts {
+    ($e:expr) => {
+        catch(move || {
+            $e;
+            "ok".to_string()
+        })
+    };
+}
+fn want(b: bool) -> String {
+    if b { "ok".into() } else { "PANIC".into() }
+}
+
+/// order laws over all pairs / triples of a small domain: `ok` or the first counterexample
+fn laws<T>(dom: &[T], cmp: impl Fn(&T, &T) -> Ordering, eq: impl Fn(&T, &T) -> bool, show: impl Fn(&T) -> String) -> String {
+    let n = dom.len();
+    let mut m = vec![Ordering::Equal; n * n];
+    for i in 0..n {
+        for j in 0..n {
+            m[i * n + j] = cmp(&dom[i], &dom[j]);
+        }
+    }
+    for i in 0..n {
+        for j in 0..n {
+            let c = m[i * n + j];
+            if m[j * n + i] != c.reverse() {
+                return format!("total:{}|{}", show(&dom[i]), show(&dom[j]));
+            }
+            if (c == Ordering::Equal) != eq(&dom[i], &dom[j]) {
+                return format!("cmp-eq:{}|{}", show(&dom[i]), show(&dom[j]));
+            }
+            if (c == Ordering::Equal) != (i == j) {
+                return format!("antisym:{}|{}", show(&dom[i]), show(&dom[j]));
+            }
+        }
+    }
+    for i in 0..n {
+        for j in 0..n {
+            let ab = m[i * n + j];
+            if ab == Ordering::Greater {
+                continue;
+            }
+            for k in 0..n {
+                let bc_ = m[j * n + k];
+                if bc_ == Ordering::Greater {
+                    continue;
+                }
+                let ac = m[i * n + k];
+                let strict = ab == Ordering::Less || bc_ == Ordering::Less;
+                let good = if strict { ac == Ordering::Less } else { ac == Ordering::Equal };
+                if !good {
+                    return format!("trans:{}|{}|{}", show(&dom[i]), show(&dom[j]), show(&dom[k]));
+                }
+            }
+        }
+    }
+    "ok".into()
+}
+
+fn dedup_domain<T: Ord + Clone>(mut v: Vec<T>) -> Vec<T> {
+    v.sort();
+    v.dedup();
+    v
+}
+
+// ---------------------------------------------------------------- slices of primitives + scalars
+
+macro_rules! prim_family {
+    ($t:ty, $eqs:path, $cmps:path, $oeqs:path, $ocmps:path, $cmp1:path, $oeq1:path, $ocmp1:path; $cfg:expr, $out:expr, $rng:expr) => {{
+        let cfg: &Cfg = $cfg;
+        let out: &mut Out = $out;
+        let rng: &mut Rng = $rng;
+        let tn = stringify!($t);
+        fn cmp_by_ref(a: &$t, b: &$t) -> Ordering {
+            $cmp1(*a, *b)
+        }
+        fn eq_by_ref(a: &$t, b: &$t) -> bool {
+            *a == *b
+        }
+        let slice_line = |out: &mut Out, l: &[$t], r: &[$t]| {
+            let args = format!("{} {} {}", tn, show_list(l.iter(), |x| x.z()), show_list(r.iter(), |x| x.z()));
+            let imp = catch(move || {
+                fields(&[
+                    ("eq", s1(bc($eqs(l, r)))),
+                    ("cmp", s1(oc($cmps(l, r)))),
+                    ("ceq", s1(bc(const_eq!(l, r)))),
+                    ("ccmp", s1(oc(const_cmp!(l, r)))),
+                    ("feq", s1(bc(const_eq_for!(slice; l, r)))),
+                    ("feqk", s1(bc(const_eq_for!(slice; l, r, |x| *x)))),
+                    ("feq2", s1(bc(const_eq_for!(slice; l, r, |x, y| *x == *y)))),
+                    ("feqp", s1(bc(const_eq_for!(slice; l, r, eq_by_ref)))),
+                    ("fcmp", s1(oc(const_cmp_for!(slice; l, r)))),
+                    ("fcmpk", s1(oc(const_cmp_for!(slice; l, r, |x| *x)))),
+                    ("fcmp2", s1(oc(const_cmp_for!(slice; l, r, |x, y| $cmp1(*x, *y))))),
+                    ("fcmpp", s1(oc(const_cmp_for!(slice; l, r, cmp_by_ref)))),
+                    ("oeq", four!($oeqs, l, r, bc)),
+                    ("ocmp", four!($ocmps, l, r, oc)),
+                    ("coeq", four!(|a: Option<&[$t]>, b: Option<&[$t]>| const_eq!(a, b), l, r, bc)),
+                    ("cocmp", four!(|a: Option<&[$t]>, b: Option<&[$t]>| const_cmp!(a, b), l, r, oc)),
+                    ("foeq", four!(|a: Option<&[$t]>, b: Option<&[$t]>| const_eq_for!(option; a, b), l, r, bc)),
+                    ("focmp", four!(|a: Option<&[$t]>, b: Option<&[$t]>| const_cmp_for!(option; a, b), l, r, oc)),
+                ])
+            });
+            let e = s1(bc(l == r));
+            let c = s1(oc(l.cmp(r)));
+            let oe = four!(|a: Option<&[$t]>, b: Option<&[$t]>| a == b, l, r, bc);
+            let oo = four!(|a: Option<&[$t]>, b: Option<&[$t]>| a.cmp(&b), l, r, oc);
+            let sd = fields(&[
+                ("eq", e.clone()), ("cmp", c.clone()), ("ceq", e.clone()), ("ccmp", c.clone()),
+                ("feq", e.clone()), ("feqk", e.clone()), ("feq2", e.clone()), ("feqp", e.clone()),
+                ("fcmp", c.clone()), ("fcmpk", c.clone()), ("fcmp2", c.clone()), ("fcmpp", c.clone()),
+                ("oeq", oe.clone()), ("ocmp", oo.clone()), ("coeq", oe.clone()), ("cocmp", oo.clone()),
+                ("foeq", oe.clone()), ("focmp", oo.clone()),
+            ]);
+            out.line("c16.slice", &args, &imp, &sd, seq_tag(l, r));
+        };
+
+        // regression witnesses of finding F4 first
+        let a3 = <$t as Prim>::a3();
+        let lo = a3[0];
+        let hi = a3[a3.len() - 1];
+        slice_line(out, &[hi], &[lo, lo]);
+        slice_line(out, &[lo, lo], &[hi]);
+        slice_line(out, &[lo, hi], &[lo, lo, lo]);
+
+        // all pairs over the 3-value alphabet up to length 3 (bool: 2 values up to length 4)
+        let two = a3.len() == 2;
+        let len_a = if two { if cfg.thorough { 5 } else { 4 } } else if cfg.thorough { 4 } else { 3 };
+        let seqs = all_seqs(&a3, len_a);
+        for l in &seqs {
+            for r in &seqs {
+                slice_line(out, l, r);
+            }
+        }
+        // all pairs over the 5-value alphabet (MIN/-1/0/1/MAX) up to length 2 (thorough: 3)
+        if !two {
+            let seqs5 = all_seqs(&<$t as Prim>::a5(), if cfg.thorough { 3 } else { 2 });
+            for l in &seqs5 {
+                for r in &seqs5 {
+                    slice_line(out, l, r);
+                }
+            }
+        }
+        // arrays [T; 2] (coerced to slices by const_eq!/const_cmp!), also against each other as Option-free values
+        let a5 = <$t as Prim>::a5();
+        for &a0 in &a5 { for &a1 in &a5 { for &b0 in &a5 { for &b1 in &a5 {
+            let (l, r): ([$t; 2], [$t; 2]) = ([a0, a1], [b0, b1]);
+            let args = format!("{} {} {}", tn, show_list(l.iter(), |x| x.z()), show_list(r.iter(), |x| x.z()));
+            let imp = catch(move || fields(&[
+                ("ceq", s1(bc(const_eq!(l, r)))),
+                ("ccmp", s1(oc(const_cmp!(l, r)))),
+                ("rceq", s1(bc(const_eq!(&l, &r)))),
+                ("rccmp", s1(oc(const_cmp!(&&l, &&r)))),
+            ]));
+            let sd = fields(&[
+                ("ceq", s1(bc(l == r))), ("ccmp", s1(oc(l.cmp(&r)))),
+                ("rceq", s1(bc(l == r))), ("rccmp", s1(oc(l.cmp(&r)))),
+            ]);
+            out.line("c16.array", &args, &imp, &sd, seq_tag(&l, &r));
+        }}}}
+        // seeded random longer slices sharing a prefix
+        let bnd = <$t as Prim>::bounds();
+        for _ in 0..(if cfg.thorough { 3000 } else { 300 }) {
+            let p = rng.below(10) as usize;
+            let mut l: Vec<$t> = (0..p).map(|_| *rng.pick(&bnd)).collect();
+            let mut r = l.clone();
+            for _ in 0..rng.below(4) {
+                l.push(*rng.pick(&bnd));
+            }
+            for _ in 0..rng.below(4) {
+                r.push(*rng.pick(&bnd));
+            }
+            slice_line(out, &l, &r);
+        }
+
+        // ---- scalars: all pairs of boundary values
+        for &a in &bnd {
+            for &b in &bnd {
+                let args = format!("{} {} {}", tn, a.z(), b.z());
+                let imp = catch(move || {
+                    fields(&[
+                        ("cmp", s1(oc($cmp1(a, b)))),
+                        ("ceq", s1(bc(const_eq!(a, b)))),
+                        ("ccmp", s1(oc(const_cmp!(a, b)))),
+                        ("oeq", four!($oeq1, a, b, bc)),
+                        ("ocmp", four!($ocmp1, a, b, oc)),
+                        ("coeq", four!(|x: Option<$t>, y: Option<$t>| const_eq!(x, y), a, b, bc)),
+                        ("cocmp", four!(|x: Option<$t>, y: Option<$t>| const_cmp!(x, y), a, b, oc)),
+                        ("foeq", four!(|x: Option<$t>, y: Option<$t>| const_eq_for!(option; x, y), a, b, bc)),
+                        ("focmp", four!(|x: Option<$t>, y: Option<$t>| const_cmp_for!(option; x, y), a, b, oc)),
+                        ("foeq2", four!(|x: Option<$t>, y: Option<$t>| const_eq_for!(option; x, y, |p, q| *p == *q), a, b, bc)),
+                        ("focmp2", four!(|x: Option<$t>, y: Option<$t>| const_cmp_for!(option; x, y, |p, q| $cmp1(*p, *q)), a, b, oc)),
+                        ("aeq", asserts!(assertc_eq!(a, b))),
+                        ("ane", asserts!(assertc_ne!(a, b))),
+                    ])
+                });
+                let e = s1(bc(a == b));
+                let c = s1(oc(a.cmp(&b)));
+                let oe = four!(|x: Option<$t>, y: Option<$t>| x == y, a, b, bc);
+                let oo = four!(|x: Option<$t>, y: Option<$t>| x.cmp(&y), a, b, oc);
+                let sd = fields(&[
+                    ("cmp", c.clone()), ("ceq", e.clone()), ("ccmp", c.clone()),
+                    ("oeq", oe.clone()), ("ocmp", oo.clone()), ("coeq", oe.clone()), ("cocmp", oo.clone()),
+                    ("foeq", oe.clone()), ("focmp", oo.clone()), ("foeq2", oe.clone()), ("focmp2", oo.clone()),
+                    ("aeq", want(a == b)), ("ane", want(a != b)),
+                ]);
+                let tag = if a == b { "eq" } else if a < b { "lt" } else { "gt" };
+                out.line("c16.scalar", &args, &imp, &sd, tag);
+            }
+        }
+
+        // ---- order laws over all pairs and triples (one summary line per type and domain)
+        let dom = dedup_domain(all_seqs(&a3, if two { 4 } else { 3 }));
+        let show = |v: &Vec<$t>| show_list(v.iter(), |x| x.z());
+        out.line("c16.laws", &format!("{} slice {}", tn, dom.len()),
+            &laws(&dom, |a, b| $cmps(a, b), |a, b| $eqs(a, b), show),
+            &laws(&dom, |a, b| a.cmp(b), |a, b| a == b, show), "triples");
+        out.line("c16.laws", &format!("{} const_cmp_for_slice {}", tn, dom.len()),
+            &laws(&dom, |a, b| { let (a, b): (&[$t], &[$t]) = (a, b); const_cmp_for!(slice; a, b) },
+                  |a, b| { let (a, b): (&[$t], &[$t]) = (a, b); const_eq_for!(slice; a, b) }, show),
+            "-", "triples");
+        let mut odom: Vec<Option<&[$t]>> = dom.iter().map(|v| Some(&v[..])).collect();
+        odom.push(None);
+        out.line("c16.laws", &format!("{} option_slice {}", tn, odom.len()),
+            &laws(&odom, |a, b| $ocmps(*a, *b), |a, b| $oeqs(*a, *b), |v| show_opt(*v, |s| show_list(s.iter(), |x| x.z()))),
+            &laws(&odom, |a, b| a.cmp(b), |a, b| a == b, |v| show_opt(*v, |s| show_list(s.iter(), |x| x.z()))), "triples");
+        let mut sdom: Vec<Option<$t>> = bnd.iter().map(|x| Some(*x)).collect();
+        sdom.push(None);
+        out.line("c16.laws", &format!("{} option_scalar {}", tn, sdom.len()),
+            &laws(&sdom, |a, b| $ocmp1(*a, *b), |a, b| $oeq1(*a, *b), |v| show_opt(*v, |x| x.z())),
+            &laws(&sdom, |a, b| a.cmp(b), |a, b| a == b, |v| show_opt(*v, |x| x.z())), "triples");
+        out.line("c16.laws", &format!("{} scalar {}", tn, bnd.len()),
+            &laws(&bnd, |a, b| $cmp1(*a, *b), |a, b| const_eq!(*a, *b), |x| x.z()),
+            &laws(&bnd, |a, b| a.cmp(b), |a, b| a == b, |x| x.z()), "triples");
+    }};
+}
+
+// ---------------------------------------------------------------- NonZero
+
+macro_rules! nonzero_family {
+    ($nz:ty, $prim:ty, $eq:path, $cmp:path, $oeq:path, $ocmp:path; $out:expr) => {{
+        let out: &mut Out = $out;
+        let tn = stringify!($nz);
+        let vals: Vec<$nz> = <$prim as Prim>::bounds().into_iter().filter_map(<$nz>::new).collect();
+        for &a in &vals {
+            for &b in &vals {
+                let args = format!("{} {} {}", tn, a.get(), b.get());
+                let imp = catch(move || {
+                    fields(&[
+                        ("eq", s1(bc($eq(a, b)))),
+                        ("cmp", s1(oc($cmp(a, b)))),
+                        ("ceq", s1(bc(const_eq!(a, b)))),
+                        ("ccmp", s1(oc(const_cmp!(a, b)))),
+                        ("oeq", four!($oeq, a, b, bc)),
+                        ("ocmp", four!($ocmp, a, b, oc)),
+                        ("coeq", four!(|x: Option<$nz>, y: Option<$nz>| const_eq!(x, y), a, b, bc)),
+                        ("cocmp", four!(|x: Option<$nz>, y: Option<$nz>| const_cmp!(x, y), a, b, oc)),
+                        ("foeq", four!(|x: Option<$nz>, y: Option<$nz>| const_eq_for!(option; x, y), a, b, bc)),
+                        ("focmp", four!(|x: Option<$nz>, y: Option<$nz>| const_cmp_for!(option; x, y), a, b, oc)),
+                    ])
+                });
+                let e = s1(bc(a == b));
+                let c = s1(oc(a.cmp(&b)));
+                let oe = four!(|x: Option<$nz>, y: Option<$nz>| x == y, a, b, bc);
+                let oo = four!(|x: Option<$nz>, y: Option<$nz>| x.cmp(&y), a, b, oc);
+                let sd = fields(&[
+                    ("eq", e.clone()), ("cmp", c.clone()), ("ceq", e.clone()), ("ccmp", c.clone()),
+                    ("oeq", oe.clone()), ("ocmp", oo.clone()), ("coeq", oe.clone()), ("cocmp", oo.clone()),
+                    ("foeq", oe.clone()), ("focmp", oo.clone()),
+                ]);
+                out.line("c16.nonzero", &args, &imp, &sd, if a == b { "eq" } else { "ne" });
+            }
+        }
+        let mut sdom: Vec<Option<$nz>> = vals.iter().map(|x| Some(*x)).collect();
+        sdom.push(None);
+        out.line("c16.laws", &format!("{} option_nonzero {}", tn, sdom.len()),
+            &laws(&sdom, |a, b| $ocmp(*a, *b), |a, b| $oeq(*a, *b), |v| show_opt(*v, |x| x.get().to_string())),
+            &laws(&sdom, |a, b| a.cmp(b), |a, b| a == b, |v| show_opt(*v, |x| x.get().to_string())), "triples");
+    }};
+}
+
+// ---------------------------------------------------------------- ranges (equality only)
+
+macro_rules! range_family {
+    ($t:ty, $eq:path, $eqinc:path; $out:expr) => {{
+        let out: &mut Out = $out;
+        let tn = stringify!($t);
+        let a5 = <$t as Prim>::a5();
+        let vals = [a5[0], a5[1], a5[3], a5[4]];
+        let mut rs: Vec<($t, $t)> = Vec::new();
+        for &s in &vals {
+            for &e in &vals {
+                rs.push((s, e));
+            }
+        }
+        for &(s1_, e1) in &rs {
+            for &(s2, e2) in &rs {
+                let args = format!("{} [{},{}] [{},{}]", tn, s1_.z(), e1.z(), s2.z(), e2.z());
+                let imp = catch(move || {
+                    fields(&[
+                        ("eq", s1(bc($eq(&(s1_..e1), &(s2..e2))))),
+                        ("ceq", s1(bc(const_eq!(s1_..e1, s2..e2)))),
+                        ("feq", s1(bc(const_eq_for!(range; s1_..e1, s2..e2)))),
+                        ("feq2", s1(bc(const_eq_for!(range; s1_..e1, s2..e2, |x, y| *x == *y)))),
+                        ("ieq", s1(bc($eqinc(&(s1_..=e1), &(s2..=e2))))),
+                        ("iceq", s1(bc(const_eq!(s1_..=e1, s2..=e2)))),
+                        ("ifeq", s1(bc(const_eq_for!(range_inclusive; s1_..=e1, s2..=e2)))),
+                        ("ifeq2", s1(bc(const_eq_for!(range_inclusive; s1_..=e1, s2..=e2, |x, y| **x == **y)))),
+                    ])
+                });
+                let e = s1(bc((s1_..e1) == (s2..e2)));
+                let ei = s1(bc((s1_..=e1) == (s2..=e2)));
+                let sd = fields(&[
+                    ("eq", e.clone()), ("ceq", e.clone()), ("feq", e.clone()), ("feq2", e.clone()),
+                    ("ieq", ei.clone()), ("iceq", ei.clone()), ("ifeq", ei.clone()), ("ifeq2", ei.clone()),
+                ]);
+                let tag = if (s1_, e1) == (s2, e2) { "eq" } else if s1_ == s2 { "end-differs" } else if e1 == e2 { "start-differs" } else { "both-differ" };
+                out.line("c16.range", &args, &imp, &sd, tag);
+            }
+        }
+    }};
+}
+
+// ---------------------------------------------------------------- strings, slices of strings / byte slices
+
+fn str_line(out: &mut Out, l: &str, r: &str) {
+    let args = format!("{} {}", hex(l.as_bytes()), hex(r.as_bytes()));
+    let imp = catch(move || {
+        fields(&[
+            ("eq", s1(bc(eq_str(l, r)))),
+            ("cmp", s1(oc(cmp_str(l, r)))),
+            ("ceq", s1(bc(const_eq!(l, r)))),
+            ("ccmp", s1(oc(const_cmp!(l, r)))),
+            ("oeq", four!(eq_option_str, l, r, bc)),
+            ("ocmp", four!(cmp_option_str, l, r, oc)),
+            ("coeq", four!(|a: Option<&str>, b: Option<&str>| const_eq!(a, b), l, r, bc)),
+            ("cocmp", four!(|a: Option<&str>, b: Option<&str>| const_cmp!(a, b), l, r, oc)),
+            ("foeq", four!(|a: Option<&str>, b: Option<&str>| const_eq_for!(option; a, b), l, r, bc)),
+            ("focmp", four!(|a: Option<&str>, b: Option<&str>| const_cmp_for!(option; a, b), l, r, oc)),
+            ("aeq", asserts!(assertc_eq!(l, r))),
+            ("ane", asserts!(assertc_ne!(l, r))),
+        ])
+    });
+    let e = s1(bc(l == r));
+    let c = s1(oc(l.cmp(r)));
+    let oe = four!(|a: Option<&str>, b: Option<&str>| a == b, l, r, bc);
+    let oo = four!(|a: Option<&str>, b: Option<&str>| a.cmp(&b), l, r, oc);
+    let sd = fields(&[
+        ("eq", e.clone()), ("cmp", c.clone()), ("ceq", e.clone()), ("ccmp", c.clone()),
+        ("oeq", oe.clone()), ("ocmp", oo.clone()), ("coeq", oe.clone()), ("cocmp", oo.clone()),
+        ("foeq", oe.clone()), ("focmp", oo.clone()),
+        ("aeq", want(l == r)), ("ane", want(l != r)),
+    ]);
+    out.line("c16.str", &args, &imp, &sd, seq_tag(l.as_bytes(), r.as_bytes()));
+}
+
+fn sstr_line(out: &mut Out, l: &[&str], r: &[&str]) {
+    let args = format!("{} {}", show_list(l.iter(), |s| hex(s.as_bytes())), show_list(r.iter(), |s| hex(s.as_bytes())));
+    let imp = catch(move || {
+        fields(&[
+            ("eq", s1(bc(eq_slice_str(l, r)))),
+            ("cmp", s1(oc(cmp_slice_str(l, r)))),
+            ("ceq", s1(bc(const_eq!(l, r)))),
+            ("ccmp", s1(oc(const_cmp!(l, r)))),
+            ("feq", s1(bc(const_eq_for!(slice; l, r)))),
+            ("feqp", s1(bc(const_eq_for!(slice; l, r, konst::eq_str)))),
+            ("fcmp", s1(oc(const_cmp_for!(slice; l, r)))),
+            ("fcmpp", s1(oc(const_cmp_for!(slice; l, r, konst::cmp_str)))),
+            ("oeq", four!(eq_option_slice_str, l, r, bc)),
+            ("ocmp", four!(cmp_option_slice_str, l, r, oc)),
+            ("coeq", four!(|a: Option<&[&str]>, b: Option<&[&str]>| const_eq!(a, b), l, r, bc)),
+            ("cocmp", four!(|a: Option<&[&str]>, b: Option<&[&str]>| const_cmp!(a, b), l, r, oc)),
+        ])
+    });
+    let e = s1(bc(l == r));
+    let c = s1(oc(l.cmp(r)));
+    let oe = four!(|a: Option<&[&str]>, b: Option<&[&str]>| a == b, l, r, bc);
+    let oo = four!(|a: Option<&[&str]>, b: Option<&[&str]>| a.cmp(&b), l, r, oc);
+    let sd = fields(&[
+        ("eq", e.clone()), ("cmp", c.clone()), ("ceq", e.clone()), ("ccmp", c.clone()),
+        ("feq", e.clone()), ("feqp", e.clone()), ("fcmp", c.clone()), ("fcmpp", c.clone()),
+        ("oeq", oe.clone()), ("ocmp", oo.clone()), ("coeq", oe.clone()), ("cocmp", oo.clone()),
+    ]);
+    out.line("c16.sstr", &args, &imp, &sd, seq_tag(l, r));
+}
+
+fn sbytes_line(out: &mut Out, l: &[&[u8]], r: &[&[u8]]) {
+    let args = format!("{} {}", show_list(l.iter(), |s| hex(s)), show_list(r.iter(), |s| hex(s)));
+    let imp = catch(move || {
+        fields(&[
+            ("eq", s1(bc(eq_slice_bytes(l, r)))),
+            ("cmp", s1(oc(cmp_slice_bytes(l, r)))),
+            ("ceq", s1(bc(const_eq!(l, r)))),
+            ("ccmp", s1(oc(const_cmp!(l, r)))),
+            ("feq", s1(bc(const_eq_for!(slice; l, r)))),
+            ("feqp", s1(bc(const_eq_for!(slice; l, r, konst::slice::eq_bytes)))),
+            ("fcmp", s1(oc(const_cmp_for!(slice; l, r)))),
+            ("fcmpp", s1(oc(const_cmp_for!(slice; l, r, konst::slice::cmp_bytes)))),
+            ("oeq", four!(eq_option_slice_bytes, l, r, bc)),
+            ("ocmp", four!(cmp_option_slice_bytes, l, r, oc)),
+            ("coeq", four!(|a: Option<&[&[u8]]>, b: Option<&[&[u8]]>| const_eq!(a, b), l, r, bc)),
+            ("cocmp", four!(|a: Option<&[&[u8]]>, b: Option<&[&[u8]]>| const_cmp!(a, b), l, r, oc)),
+        ])
+    });
+    let e = s1(bc(l == r));
+    let c = s1(oc(l.cmp(r)));
+    let oe = four!(|a: Option<&[&[u8]]>, b: Option<&[&[u8]]>| a == b, l, r, bc);
+    let oo = four!(|a: Option<&[&[u8]]>, b: Option<&[&[u8]]>| a.cmp(&b), l, r, oc);
+    let sd = fields(&[
+        ("eq", e.clone()), ("cmp", c.clone()), ("ceq", e.clone()), ("ccmp", c.clone()),
+        ("feq", e.clone()), ("feqp", e.clone()), ("fcmp", c.clone()), ("fcmpp", c.clone()),
+        ("oeq", oe.clone()), ("ocmp", oo.clone()), ("coeq", oe.clone()), ("cocmp", oo.clone()),
+    ]);
+    out.line("c16.sbytes", &args, &imp, &sd, seq_tag(l, r));
+}
+
+// ---------------------------------------------------------------- a user type (impl_cmp!, try_equal!, IsNotStdKind coercion)
+
+#[derive(Debug, Clone, Copy, PartialEq, Eq, PartialOrd, Ord)]
+pub struct Pt {
+    x: i8,
+    name: &'static str,
+    tag: Option<u8>,
+}
+konst::impl_cmp! {
+    impl Pt;
+
+    pub const fn const_eq(&self, other: &Self) -> bool {
+        const_eq!(self.x, other.x) && const_eq!(self.name, other.name) && const_eq!(self.tag, other.tag)
+    }
+    pub const fn const_cmp(&self, other: &Self) -> Ordering {
+        konst::try_equal!(const_cmp!(self.x, other.x));
+        konst::try_equal!(const_cmp!(self.name, other.name));
+        konst::try_equal!(const_cmp!(self.tag, other.tag))
+    }
+}
+fn show_pt(p: &Pt) -> String {
+    format!("{} {} {}", p.x, hex(p.name.as_bytes()), show_list(p.tag.iter(), |t| t.to_string()))
+}
+fn user_line(out: &mut Out, p: Pt, q: Pt) {
+    let args = format!("{} {}", show_pt(&p), show_pt(&q));
+    let imp = catch(move || {
+        let ls: &[Pt] = &[p, q];
+        let rs: &[Pt] = &[p, p];
+        fields(&[
+            ("ceq", s1(bc(const_eq!(p, q)))),
+            ("ccmp", s1(oc(const_cmp!(p, q)))),
+            ("feq", s1(bc(const_eq_for!(slice; ls, rs)))),
+            ("fcmp", s1(oc(const_cmp_for!(slice; ls, rs)))),
+            ("fkeq", s1(bc(const_eq_for!(slice; ls, rs, |v| v.x)))),
+            ("fkcmp", s1(oc(const_cmp_for!(slice; ls, rs, |v| v.x)))),
+            ("foeq", four!(|a: Option<Pt>, b: Option<Pt>| const_eq_for!(option; a, b), p, q, bc)),
+            ("focmp", four!(|a: Option<Pt>, b: Option<Pt>| const_cmp_for!(option; a, b), p, q, oc)),
+            ("fokcmp", four!(|a: Option<Pt>, b: Option<Pt>| const_cmp_for!(option; a, b, |v| v.name), p, q, oc)),
+        ])
+    });
+    let ls: &[Pt] = &[p, q];
+    let rs: &[Pt] = &[p, p];
+    let lk: Vec<i8> = ls.iter().map(|v| v.x).collect();
+    let rk: Vec<i8> = rs.iter().map(|v| v.x).collect();
+    let sd = fields(&[
+        ("ceq", s1(bc(p == q))),
+        ("ccmp", s1(oc(p.cmp(&q)))),
+        ("feq", s1(bc(ls == rs))),
+        ("fcmp", s1(oc(ls.cmp(rs)))),
+        ("fkeq", s1(bc(lk == rk))),
+        ("fkcmp", s1(oc(lk.cmp(&rk)))),
+        ("foeq", four!(|a: Option<Pt>, b: Option<Pt>| a == b, p, q, bc)),
+        ("focmp", four!(|a: Option<Pt>, b: Option<Pt>| a.cmp(&b), p, q, oc)),
+        ("fokcmp", four!(|a: Option<Pt>, b: Option<Pt>| a.map(|v| v.name).cmp(&b.map(|v| v.name)), p, q, oc)),
+    ]);
+    let tag = if p == q { "eq" } else if p.x != q.x { "first-field" } else if p.name != q.name { "second-field" } else { "third-field" };
+    out.line("c16.user", &args, &imp, &sd, tag);
+}
+
+fn ord_of(i: i8) -> Ordering {
+    match i {
+        -1 => Ordering::Less,
+        0 => Ordering::Equal,
+        _ => Ordering::Greater,
+    }
+}
+
+pub fn run(cfg: &Cfg, out: &mut Out) {
+    let mut rng = Rng::new(cfg.seed);
+
+    // ---- strings
+    for (l, r) in [("b", "aa"), ("aa", "b"), ("\u{e9}", "ab"), ("a\u{e9}", "aaa")] {
+        str_line(out, l, r);
+    }
+    let strs = all_strings(&['a', 'b', '\u{e9}'], if cfg.thorough { 4 } else { 3 });
+    for l in &strs {
+        for r in &strs {
+            str_line(out, l, r);
+        }
+    }
+    let wide = ['\0', 'a', '\u{7f}', '\u{80}', '\u{7ff}', '\u{800}', '\u{ffff}', '\u{10000}', '\u{10ffff}'];
+    let strs2 = all_strings(&wide, 2);
+    for l in &strs2 {
+        for r in &strs2 {
+            str_line(out, l, r);
+        }
+    }
+    for _ in 0..(if cfg.thorough { 5000 } else { 500 }) {
+        let p = rng.below(12) as usize;
+        let mut l: String = (0..p).map(|_| *rng.pick(&wide)).collect();
+        let mut r = l.clone();
+        for _ in 0..rng.below(4) {
+            l.push(*rng.pick(&wide));
+        }
+        for _ in 0..rng.below(4) {
+            r.push(*rng.pick(&wide));
+        }
+        str_line(out, &l, &r);
+    }
+    let show_s = |s: &String| hex(s.as_bytes());
+    out.line("c16.laws", &format!("str str {}", strs.len()),
+        &laws(&strs, |a, b| cmp_str(a, b), |a, b| eq_str(a, b), show_s),
+        &laws(&strs, |a, b| a.cmp(b), |a, b| a == b, show_s), "triples");
+    {
+        let mut od: Vec<Option<&str>> = strs.iter().map(|s| Some(&s[..])).collect();
+        od.push(None);
+        let sh = |v: &Option<&str>| show_opt(*v, |s| hex(s.as_bytes()));
+        out.line("c16.laws", &format!("str option_str {}", od.len()),
+            &laws(&od, |a, b| cmp_option_str(*a, *b), |a, b| eq_option_str(*a, *b), sh),
+            &laws(&od, |a, b| a.cmp(b), |a, b| a == b, sh), "triples");
+    }
+
+    // ---- slices of strings and of byte slices: 4-string alphabet, up to length 3
+    let words: [&str; 4] = ["", "a", "ab", "b"];
+    let wseqs = all_seqs(&words, if cfg.thorough { 4 } else { 3 });
+    sstr_line(out, &["b"], &["a", "a"]);
+    sstr_line(out, &["a", "a"], &["b"]);
+    for l in &wseqs {
+        for r in &wseqs {
+            sstr_line(out, l, r);
+        }
+    }
+    let bwords: [&[u8]; 4] = [b"", b"\x01", b"\x01\xff", b"\xff"];
+    let bseqs = all_seqs(&bwords, if cfg.thorough { 4 } else { 3 });
+    sbytes_line(out, &[b"\xff"], &[b"\x01", b"\x01"]);
+    sbytes_line(out, &[b"\x01", b"\x01"], &[b"\xff"]);
+    for l in &bseqs {
+        for r in &bseqs {
+            sbytes_line(out, l, r);
+        }
+    }
+    {
+        let dom = all_seqs(&words, 3);
+        let sh = |v: &Vec<&str>| show_list(v.iter(), |s| hex(s.as_bytes()));
+        out.line("c16.laws", &format!("str slice_str {}", dom.len()),
+            &laws(&dom, |a, b| cmp_slice_str(a, b), |a, b| eq_slice_str(a, b), sh),
+            &laws(&dom, |a, b| a.cmp(b), |a, b| a == b, sh), "triples");
+        let domb = all_seqs(&bwords, 3);
+        let shb = |v: &Vec<&[u8]>| show_list(v.iter(), |s| hex(s));
+        out.line("c16.laws", &format!("u8 slice_bytes {}", domb.len()),
+            &laws(&domb, |a, b| cmp_slice_bytes(a, b), |a, b| eq_slice_bytes(a, b), shb),
+            &laws(&domb, |a, b| a.cmp(b), |a, b| a == b, shb), "triples");
+    }
+
+    // ---- slices of the 14 primitive types, scalars, Option of both
+    prim_family!(u8, eq_bytes, cmp_bytes, eq_option_bytes, cmp_option_bytes, cmp_u8, eq_option_u8, cmp_option_u8; cfg, out, &mut rng);
+    prim_family!(u16, eq_slice_u16, cmp_slice_u16, eq_option_slice_u16, cmp_option_slice_u16, cmp_u16, eq_option_u16, cmp_option_u16; cfg, out, &mut rng);
+    prim_family!(u32, eq_slice_u32, cmp_slice_u32, eq_option_slice_u32, cmp_option_slice_u32, cmp_u32, eq_option_u32, cmp_option_u32; cfg, out, &mut rng);
+    prim_family!(u64, eq_slice_u64, cmp_slice_u64, eq_option_slice_u64, cmp_option_slice_u64, cmp_u64, eq_option_u64, cmp_option_u64; cfg, out, &mut rng);
+    prim_family!(u128, eq_slice_u128, cmp_slice_u128, eq_option_slice_u128, cmp_option_slice_u128, cmp_u128, eq_option_u128, cmp_option_u128; cfg, out, &mut rng);
+    prim_family!(usize, eq_slice_usize, cmp_slice_usize, eq_option_slice_usize, cmp_option_slice_usize, cmp_usize, eq_option_usize, cmp_option_usize; cfg, out, &mut rng);
+    prim_family!(i8, eq_slice_i8, cmp_slice_i8, eq_option_slice_i8, cmp_option_slice_i8, cmp_i8, eq_option_i8, cmp_option_i8; cfg, out, &mut rng);
+    prim_family!(i16, eq_slice_i16, cmp_slice_i16, eq_option_slice_i16, cmp_option_slice_i16, cmp_i16, eq_option_i16, cmp_option_i16; cfg, out, &mut rng);
+    prim_family!(i32, eq_slice_i32, cmp_slice_i32, eq_option_slice_i32, cmp_option_slice_i32, cmp_i32, eq_option_i32, cmp_option_i32; cfg, out, &mut rng);
+    prim_family!(i64, eq_slice_i64, cmp_slice_i64, eq_option_slice_i64, cmp_option_slice_i64, cmp_i64, eq_option_i64, cmp_option_i64; cfg, out, &mut rng);
+    prim_family!(i128, eq_slice_i128, cmp_slice_i128, eq_option_slice_i128, cmp_option_slice_i128, cmp_i128, eq_option_i128, cmp_option_i128; cfg, out, &mut rng);
+    prim_family!(isize, eq_slice_isize, cmp_slice_isize, eq_option_slice_isize, cmp_option_slice_isize, cmp_isize, eq_option_isize, cmp_option_isize; cfg, out, &mut rng);
+    prim_family!(bool, eq_slice_bool, cmp_slice_bool, eq_option_slice_bool, cmp_option_slice_bool, cmp_bool, eq_option_bool, cmp_option_bool; cfg, out, &mut rng);
+    prim_family!(char, eq_slice_char, cmp_slice_char, eq_option_slice_char, cmp_option_slice_char, cmp_char, eq_option_char, cmp_option_char; cfg, out, &mut rng);
+
+    // the u8 functions under their slice::cmp alias names
+    {
+        let seqs = all_seqs(&[0u8, 1, 255], 2);
+        for l in &seqs {
+            for r in &seqs {
+                let (l, r): (&[u8], &[u8]) = (l, r);
+                let args = format!("{} {}", show_list(l.iter(), |x| x.z()), show_list(r.iter(), |x| x.z()));
+                let imp = fields(&[
+                    ("eq", s1(bc(eq_slice_u8(l, r)))),
+                    ("cmp", s1(oc(cmp_slice_u8(l, r)))),
+                    ("oeq", four!(eq_option_slice_u8, l, r, bc)),
+                    ("ocmp", four!(cmp_option_slice_u8, l, r, oc)),
+                ]);
+                let sd = fields(&[
+                    ("eq", s1(bc(l == r))),
+                    ("cmp", s1(oc(l.cmp(r)))),
+                    ("oeq", four!(|a: Option<&[u8]>, b: Option<&[u8]>| a == b, l, r, bc)),
+                    ("ocmp", four!(|a: Option<&[u8]>, b: Option<&[u8]>| a.cmp(&b), l, r, oc)),
+                ]);
+                out.line("c16.slice_u8_alias", &args, &imp, &sd, seq_tag(l, r));
+            }
+        }
+    }
+
+    // ---- a user type with impl_cmp! (field-wise, try_equal! chain)
+    {
+        let names: [&'static str; 3] = ["", "a", "ab"];
+        let mut pts = Vec::new();
+        for x in [-1i8, 0, 1] {
+            for name in names {
+                for tag in [None, Some(0u8), Some(255)] {
+                    pts.push(Pt { x, name, tag });
+                }
+            }
+        }
+        for &p in &pts {
+            for &q in &pts {
+                user_line(out, p, q);
+            }
+        }
+        out.line("c16.laws", &format!("Pt user {}", pts.len()),
+            &laws(&pts, |a, b| const_cmp!(*a, *b), |a, b| const_eq!(*a, *b), show_pt),
+            &laws(&pts, |a, b| a.cmp(b), |a, b| a == b, show_pt), "triples");
+    }
+
+    // ---- NonZero integers
+    nonzero_family!(NonZeroU8, u8, eq_nonzerou8, cmp_nonzerou8, eq_option_nonzerou8, cmp_option_nonzerou8; out);
+    nonzero_family!(NonZeroI8, i8, eq_nonzeroi8, cmp_nonzeroi8, eq_option_nonzeroi8, cmp_option_nonzeroi8; out);
+    nonzero_family!(NonZeroU16, u16, eq_nonzerou16, cmp_nonzerou16, eq_option_nonzerou16, cmp_option_nonzerou16; out);
+    nonzero_family!(NonZeroI16, i16, eq_nonzeroi16, cmp_nonzeroi16, eq_option_nonzeroi16, cmp_option_nonzeroi16; out);
+    nonzero_family!(NonZeroU32, u32, eq_nonzerou32, cmp_nonzerou32, eq_option_nonzerou32, cmp_option_nonzerou32; out);
+    nonzero_family!(NonZeroI32, i32, eq_nonzeroi32, cmp_nonzeroi32, eq_option_nonzeroi32, cmp_option_nonzeroi32; out);
+    nonzero_family!(NonZeroU64, u64, eq_nonzerou64, cmp_nonzerou64, eq_option_nonzerou64, cmp_option_nonzerou64; out);
+    nonzero_family!(NonZeroI64, i64, eq_nonzeroi64, cmp_nonzeroi64, eq_option_nonzeroi64, cmp_option_nonzeroi64; out);
+    nonzero_family!(NonZeroU128, u128, eq_nonzerou128, cmp_nonzerou128, eq_option_nonzerou128, cmp_option_nonzerou128; out);
+    nonzero_family!(NonZeroI128, i128, eq_nonzeroi128, cmp_nonzeroi128, eq_option_nonzeroi128, cmp_option_nonzeroi128; out);
+    nonzero_family!(NonZeroUsize, usize, eq_nonzerousize, cmp_nonzerousize, eq_option_nonzerousize, cmp_option_nonzerousize; out);
+    nonzero_family!(NonZeroIsize, isize, eq_nonzeroisize, cmp_nonzeroisize, eq_option_nonzeroisize, cmp_option_nonzeroisize; out);
+
+    // ---- ranges
+    range_family!(u8, eq_range_u8, eq_rangeinc_u8; out);
+    range_family!(u16, eq_range_u16, eq_rangeinc_u16; out);
+    range_family!(u32, eq_range_u32, eq_rangeinc_u32; out);
+    range_family!(u64, eq_range_u64, eq_rangeinc_u64; out);
+    range_family!(u128, eq_range_u128, eq_rangeinc_u128; out);
+    range_family!(usize, eq_range_usize, eq_rangeinc_usize; out);
+    range_family!(char, eq_range_char, eq_rangeinc_char; out);
+
+    // ---- Ordering and Option<Ordering>
+    for a in -1i8..=1 {
+        for b in -1i8..=1 {
+            let (x, y) = (ord_of(a), ord_of(b));
+            let imp = catch(move || {
+                fields(&[
+                    ("eq", s1(bc(eq_ordering(x, y)))),
+                    ("cmp", s1(oc(cmp_ordering(x, y)))),
+                    ("ceq", s1(bc(const_eq!(x, y)))),
+                    ("ccmp", s1(oc(const_cmp!(x, y)))),
+                    ("oeq", four!(eq_option_ordering, x, y, bc)),
+                    ("ocmp", four!(cmp_option_ordering, x, y, oc)),
+                    ("coeq", four!(|p: Option<Ordering>, q: Option<Ordering>| const_eq!(p, q), x, y, bc)),
+                    ("cocmp", four!(|p: Option<Ordering>, q: Option<Ordering>| const_cmp!(p, q), x, y, oc)),
+                    ("foeq", four!(|p: Option<Ordering>, q: Option<Ordering>| const_eq_for!(option; p, q), x, y, bc)),
+                    ("focmp", four!(|p: Option<Ordering>, q: Option<Ordering>| const_cmp_for!(option; p, q), x, y, oc)),
+                ])
+            });
+            let e = s1(bc(x == y));
+            let c = s1(oc(x.cmp(&y)));
+            let oe = four!(|p: Option<Ordering>, q: Option<Ordering>| p == q, x, y, bc);
+            let oo = four!(|p: Option<Ordering>, q: Option<Ordering>| p.cmp(&q), x, y, oc);
+            let sd = fields(&[
+                ("eq", e.clone()), ("cmp", c.clone()), ("ceq", e.clone()), ("ccmp", c.clone()),
+                ("oeq", oe.clone()), ("ocmp", oo.clone()), ("coeq", oe.clone()), ("cocmp", oo.clone()),
+                ("foeq", oe.clone()), ("focmp", oo.clone()),
+            ]);
+            out.line("c16.ordering", &format!("{} {}", a, b), &imp, &sd, if a == b { "eq" } else { "ne" });
+        }
+    }
+    {
+        let od = [None, Some(Ordering::Less), Some(Ordering::Equal), Some(Ordering::Greater)];
+        let sh = |v: &Option<Ordering>| show_opt(*v, |o| s1(oc(o)));
+        out.line("c16.laws", &format!("Ordering option_ordering {}", od.len()),
+            &laws(&od, |a, b| cmp_option_ordering(*a, *b), |a, b| eq_option_ordering(*a, *b), sh),
+            &laws(&od, |a, b| a.cmp(b), |a, b| a == b, sh), "triples");
+    }
+
+    // ---- marker types
+    {
+        use std::marker::{PhantomData, PhantomPinned};
+        let p: PhantomData<u8> = PhantomData;
+        let imp = format!("{}{}{}{}", bc(eq_phantomdata(p, p)), oc(cmp_phantomdata(p, p)), bc(eq_phantompinned(PhantomPinned, PhantomPinned)), oc(cmp_phantompinned(PhantomPinned, PhantomPinned)));
+        let sd = format!("{}{}{}{}", bc(p == p), oc(p.cmp(&p)), bc(PhantomPinned == PhantomPinned), oc(PhantomPinned.cmp(&PhantomPinned)));
+        out.line("c16.marker", "0", &imp, &sd, "-");
+    }
+}
